@@ -493,12 +493,15 @@ func RunHistory(st *PState, pc *PCase, obs PObserver) (class, msg string, at int
 		case "write":
 			data := st.take(st.size(op))
 			// the parser must not keep or modify the caller's slice
-			arg := append([]byte(nil), data...)
+			// (a scratch slice with spare capacity that is overwritten as soon
+			// as Write has returned)
+			arg := callerCopy(data)
 			ev.Given = data
 			ev.Panic = call(func() {
 				n, err := p.Write(arg)
 				ev.N, ev.Err = int64(n), err
 			})
+			scribble(arg)
 		case "readfrom":
 			data := st.take(st.size(op))
 			rd := &planReader{data: data, steps: op.Steps}
